@@ -4,9 +4,9 @@ package main
 // clauses R1–R9.
 
 import (
-	"go/types"
 	"fmt"
 	"go/token"
+	"go/types"
 	"sort"
 	"strings"
 
@@ -533,7 +533,11 @@ func c01Surfacing(c *Ctx, p *Prog, rule string) {
 	}
 	for _, f := range fs {
 		switch {
-		case func() bool { x, isNil, ok := FactNilCmp(f); cc, _ := callOf(unspill(x)); return ok && isNil && cc == rs.dec }():
+		case func() bool {
+			x, isNil, ok := FactNilCmp(f)
+			cc, _ := callOf(unspill(x))
+			return ok && isNil && cc == rs.dec
+		}():
 			needs[0].ok = true
 		case func() bool {
 			call, ok := p.FactCallBool(f, "errors.Is")
@@ -544,7 +548,10 @@ func c01Surfacing(c *Ctx, p *Prog, rule string) {
 			return cc == rs.dec
 		}():
 			// not ErrAgain: implied by err == nil; fine
-		case func() bool { sib, wantNil, kind := siblingTest(f); return sib != nil && kind == "nil" && wantNil && isErrorType(sib.Type()) }():
+		case func() bool {
+			sib, wantNil, kind := siblingTest(f)
+			return sib != nil && kind == "nil" && wantNil && isErrorType(sib.Type())
+		}():
 			// "the merged error of the parsing steps is nil": its content is the conditions of the
 			// individual steps, which are judged one by one
 		default:
